@@ -3,7 +3,9 @@
 // For every generated case (a table written by the real write_fits, with aux keys added by the real write_key)
 // and every convolution configuration it prints
 //   case line  (input of the Lean driver):  C <objsize> <ndim> <n> <convdim> <doconv> <nauxK> <naux> {order nknots naxes}*ndim {keylen vallen storedlen}*naux
-//   impl line  (what the real code did)   :  est <E> estdef <E'> peak <P> live <L> ev <a|f><bytes> ... | <a|f><bytes> ...
+//   impl line  (what the real code did)   :  est <E> estdef <E'> peak <P> live <L> pad16 <P16> end <Z> ev <a|f><bytes> ... | <a|f><bytes> ... | <f><bytes> ...
+//                                            (requests of the constructor | of convolve | of the destructor; P16 = peak with every block rounded
+//                                             up to 16 bytes; Z = bytes still live after the destructor)
 //                                            or, when the library refused the file:  rejected est <E> peak <P> live <L> <message>
 // The case line is computed WITHOUT the code under test where possible: shapes come from the table the harness built,
 // key/value lengths from a cfitsio-only dump of the cards of HDU 1 (cross-checked against the keys the harness wrote),
@@ -24,10 +26,11 @@ namespace {
 struct Event { char kind; size_t bytes; };
 struct Ledger {
   size_t live = 0, peak = 0;
+  size_t live16 = 0, peak16 = 0;   // the same requests with every block rounded up to a multiple of 16 bytes
   std::vector<Event> ev;
   std::map<void*, size_t> blocks;
   size_t mismatched_frees = 0;
-  void reset() { live = peak = 0; ev.clear(); blocks.clear(); mismatched_frees = 0; }
+  void reset() { live = peak = 0; live16 = peak16 = 0; ev.clear(); blocks.clear(); mismatched_frees = 0; }
 };
 static Ledger L;
 
@@ -42,6 +45,7 @@ struct CountingAlloc {
   T* allocate(size_t n) {
     size_t b = n * sizeof(T);
     led->live += b; if (led->live > led->peak) led->peak = led->live;
+    led->live16 += (b + 15) / 16 * 16; if (led->live16 > led->peak16) led->peak16 = led->live16;
     led->ev.push_back(Event{'a', b});
     void* p = ::operator new(b ? b : 1);
     led->blocks[p] = b;
@@ -51,6 +55,7 @@ struct CountingAlloc {
     size_t b = n * sizeof(T);
     led->ev.push_back(Event{'f', b});
     led->live -= b;
+    led->live16 -= (b + 15) / 16 * 16;
     std::map<void*, size_t>::iterator it = led->blocks.find((void*)p);
     if (it == led->blocks.end() || it->second != b) led->mismatched_frees++;
     if (it != led->blocks.end()) led->blocks.erase(it);
@@ -197,6 +202,7 @@ int main(int argc, char** argv) {
   std::map<int, long> h_ndim, h_naux, h_n, h_order; long h_conv = 0, h_noconv = 0, h_long = 0, h_short = 0, lines = 0;
   std::map<int, long> h_card;  // keylen+vallen histogram
   long reserved_disagree = 0, dealloc_mismatch = 0, aux_cross_fail = 0, h_skipped0 = 0, h_rejected = 0;
+  long live_after_destroy_nonzero = 0;
   long stored_cross_fail = 0, h_quoted = 0, h_unquoted = 0, h_with_inner_quotes = 0, rejected_peak_over_estimate = 0, rejected_live_nonzero = 0;
   std::map<int, long> h_plainkind, h_ikind, h_shrink;
   bool fast0 = factorial0_is_fast();
@@ -332,7 +338,7 @@ int main(int argc, char** argv) {
       if (!g.doconv) { est = CTable::estimateMemory(fits); estdef = psv::Table::estimateMemory(fits); }
       else { est = CTable::estimateMemory(fits, g.n, g.dim); estdef = psv::Table::estimateMemory(fits, g.n, g.dim); }
       L.reset();
-      std::vector<Event> evRead, evConv; size_t peak, live, mism;
+      std::vector<Event> evRead, evConv, evDestroy; size_t peak, live, mism, pad16 = 0;
       {
         CTable t(fits, CountingAlloc<void>(&L));
         evRead = L.ev; L.ev.clear();
@@ -348,13 +354,19 @@ int main(int argc, char** argv) {
           evConv = L.ev; L.ev.clear();
           h_conv++; h_n[g.n]++;
         } else h_noconv++;
-        peak = L.peak; live = L.live; mism = L.mismatched_frees;
+        peak = L.peak; live = L.live; pad16 = L.peak16;
       }
+      // the table has been destroyed: what its destructor released, and what is left (must be nothing)
+      evDestroy = L.ev; L.ev.clear();
+      mism = L.mismatched_frees;
       dealloc_mismatch += mism;
-      fprintf(fi, "est %zu estdef %zu peak %zu live %zu ev", est, estdef, peak, live);
+      if (L.live != 0 || !L.blocks.empty()) live_after_destroy_nonzero++;
+      fprintf(fi, "est %zu estdef %zu peak %zu live %zu pad16 %zu end %zu ev", est, estdef, peak, live, pad16, L.live);
       for (size_t e = 0; e < evRead.size(); e++) fprintf(fi, " %c%zu", evRead[e].kind, evRead[e].bytes);
       fprintf(fi, " |");
       for (size_t e = 0; e < evConv.size(); e++) fprintf(fi, " %c%zu", evConv[e].kind, evConv[e].bytes);
+      fprintf(fi, " |");
+      for (size_t e = 0; e < evDestroy.size(); e++) fprintf(fi, " %c%zu", evDestroy[e].kind, evDestroy[e].bytes);
       fprintf(fi, "\n");
       } catch (std::exception& ex) {
         // the library refused the file (expected for profile I: the reader validates the shape); the ledger shows what had
@@ -372,9 +384,9 @@ int main(int argc, char** argv) {
   unlink(fits.c_str());
   fprintf(fs, "{\"profile\":\"%c\",\"tables\":%ld,\"lines\":%ld,\"no_convolution\":%ld,\"convolutions\":%ld,\"short_keys\":%ld,\"hierarch_keys\":%ld,"
               "\"reserved_rule_disagreements\":%ld,\"dealloc_size_mismatch_during_load_or_convolve\":%ld,\"aux_cross_check_failures\":%ld,"
-              "\"stored_cross_check_failures\":%ld,\"quoted_values\":%ld,\"unquoted_values\":%ld,\"values_with_embedded_quotes\":%ld,\"rejected_loads_whose_transient_exceeds_estimate\":%ld,\"rejected_loads_leaving_bytes_live\":%ld,"
+              "\"stored_cross_check_failures\":%ld,\"quoted_values\":%ld,\"unquoted_values\":%ld,\"values_with_embedded_quotes\":%ld,\"rejected_loads_whose_transient_exceeds_estimate\":%ld,\"rejected_loads_leaving_bytes_live\":%ld,\"tables_leaving_bytes_live_after_destruction\":%ld,"
               "\"sizeof_counting_table\":%zu,\"sizeof_default_table\":%zu,\"order0_and_1knot_convolutions_generated\":%s,\"skipped_order0_convolutions\":%ld,\"rejected_by_library\":%ld",
-          profile, ncases, lines, h_noconv, h_conv, h_short, h_long, reserved_disagree, dealloc_mismatch, aux_cross_fail, stored_cross_fail, h_quoted, h_unquoted, h_with_inner_quotes, rejected_peak_over_estimate, rejected_live_nonzero, sizeof(CTable), sizeof(psv::Table), fast0 ? "true" : "false", h_skipped0, h_rejected);
+          profile, ncases, lines, h_noconv, h_conv, h_short, h_long, reserved_disagree, dealloc_mismatch, aux_cross_fail, stored_cross_fail, h_quoted, h_unquoted, h_with_inner_quotes, rejected_peak_over_estimate, rejected_live_nonzero, live_after_destroy_nonzero, sizeof(CTable), sizeof(psv::Table), fast0 ? "true" : "false", h_skipped0, h_rejected);
   struct H { const char* name; std::map<int, long>* m; } hs[] = {{"ndim", &h_ndim}, {"naux_decade", &h_naux}, {"kernel_knots", &h_n}, {"order", &h_order}, {"keylen_plus_vallen_decade", &h_card},
                                                    {"vallen_minus_storedlen", &h_shrink}, {"plain_card_kind_long_double_logical_history", &h_plainkind},
                                                    {"refused_kind_larger_smaller_fewknots", &h_ikind}};
